@@ -91,17 +91,10 @@ ValidRankSpec(c, rs, frac) ==
 \* 2^66 ~ 7e19, 2^400 ~ 2.6e120.  Only float64 can hold these.
 Pow2s == {-400, -66, 0, 66, 400}
 
-\* Combinations left out of the domain because the unchanged library mishandles them today (reported as
-\* defects with proposed fixes /verif/fixes/F-05d.diff, F-05e.diff; delete a line here once it is repaired):
-\*  F-05d  symeig_svd clips the Gram eigenvalues at machine eps in ABSOLUTE terms: for data of magnitude
-\*         << 1e-8 every singular value is floored at 1.5e-8 and the truncation picks arbitrary directions;
-\*         for data of magnitude >> 1 the round-off eigenvalues of a rank-deficient Gram matrix pass the
-\*         floor or are divided by it, giving huge / non-finite vectors;
-\*  F-05e  randomized_range_finder draws its Gaussian test matrix in the dtype of the input: for integer
-\*         arrays it is truncated to integers (68% zeros), so the sketch no longer covers the range.
-KnownBadCombination(svd, dtype, pow2) ==
-    \/ svd = "symeig_svd" /\ pow2 # 0
-    \/ svd = "randomized_svd" /\ dtype \in {"int64", "int32"}
+\* No combination is left out of the domain.  (Two were, until repaired: F-05d symeig_svd clipped the Gram eigenvalues
+\* at machine eps in ABSOLUTE terms -- wrong for magnitudes << 1e-8 and >> 1 --, F-05e randomized_range_finder drew its
+\* Gaussian test matrix in the dtype of the input -- truncated to integers for integer arrays; see known_findings.json.)
+KnownBadCombination(svd, dtype, pow2) == FALSE
 
 Algs == {"tucker", "tt", "ttm", "tr"}
 Svds == {"truncated_svd", "symeig_svd", "randomized_svd"}
